@@ -177,6 +177,30 @@ def run(tier, seed):
         res.case(("estree", mname, p0, dt, tuple(stack), backend), len(r.traces) > 1, info)
         shutil.rmtree(d, ignore_errors=True)
     shutil.rmtree(tmproot, ignore_errors=True)
+    # ---- two nuclear dimensions, read from the log alone: at every accepted hop the momentum changes only along the coupling vector of the
+    #      two states at the point of the hop (the end point of the pass), whatever the class (A-FSSH rescales along its own direction and is left out)
+    import sys as _sys
+    S2 = _sys.modules['mudslide.models.scattering_models'].Subotnik2D
+    for cls2, cname2 in [(mudslide.TrajectorySH, "fssh"), (mudslide.TrajectoryCum, "cumulative")]:
+        for it2 in range(2 if tier == "quick" else 12):
+            dt2 = 12.0; m2 = S2(mass=[2000.0, 700.0])
+            x2 = [rng.uniform(-2.5, -1.5), rng.uniform(-1.0, 2.0)]; p2 = [rng.uniform(36.0, 50.0), rng.uniform(-12.0, 9.0)]; s2 = rng.randrange(2)
+            zl2 = [1e-9] * 120 if cname2 == "fssh" else [rng.random() * 0.01 for _ in range(60)]
+            log2 = cls2(m2, x2, p2, s2, dt=dt2, max_steps=120, seed_sequence=rng.randrange(2 ** 31), zeta_list=zl2).simulate()
+            sn2 = [s_ for s_ in log2]; tm2 = np.array([s_["time"] for s_ in sn2]); nh2 = 0
+            for h in log2.hops:
+                i2 = int(np.argmin(np.abs(tm2 - h["time"])))
+                if i2 + 1 >= len(sn2): continue
+                b2, a2 = sn2[i2], sn2[i2 + 1]; k2, n2 = int(h["from"]), int(h["to"])
+                ppre = np.array(b2["momentum"]) + 0.5 * dt2 * (np.array(b2["electronics"]["force"])[k2] + np.array(a2["electronics"]["force"])[k2])
+                dp2 = np.array(a2["momentum"]) - ppre; d2 = np.array(a2["electronics"]["derivative_coupling"])[k2, n2]
+                if np.linalg.norm(dp2) < 1e-9 or np.linalg.norm(d2) < 1e-12: continue
+                sine = abs(dp2[0] * d2[1] - dp2[1] * d2[0]) / (np.linalg.norm(dp2) * np.linalg.norm(d2)); nh2 += 1
+                if sine > 1e-7:
+                    tbad.append(dict(failed="an accepted hop changes the momentum only along the coupling vector at the hop point (%s on Subotnik2D, hop %d -> %d at t=%g: sin(angle between dp and d) = %.3e)" % (cname2, k2, n2, h["time"], sine),
+                                     case=dict(cls=cname2, x0=x2, p0=p2, state0=s2))); break
+            res.count("2d-log-hops/" + cname2, nh2)
+            res.case(("2dlog", cname2, it2), nh2 > 0)
     ev_eqb = ("(fun a b => match a, b with EHop k f t, EHop k' f' t' => Nat.eqb k k' && Nat.eqb f f' && Nat.eqb t t' "
               "| EFrustrated k f t, EFrustrated k' f' t' => Nat.eqb k k' && Nat.eqb f f' && Nat.eqb t t' | _, _ => false end)")
     checker = ("fun c => let '(a0, atts, acts, evs) := c in let '(macts, mevs) := run_from 0 a0 atts in\n"
